@@ -34,15 +34,23 @@ type Backend struct {
 	FailAfter    int    // answer this many more queries, then switch to FailMode (-1: never)
 	FailMode     string
 	Log          []string   // every request text received
+	Replies      []Reply    // what was answered to Log[i] (Code 0: nothing usable was sent)
 	Commands     []string   // every command line received
 	Batches      [][]string // the commands received, one list per connection
 	connSeq      int
 	takenBatches [][]string
+	takenReplies []Reply
 	CmdReply     string // reply to commands ("" = none)
 	Queries      int
 	listener     net.Listener
 	Now          func() time.Time
 	conns        map[net.Conn]bool
+}
+
+// Reply is what the backend answered to one request.
+type Reply struct {
+	Code int     `json:"code"`
+	Body *string `json:"body"`
 }
 
 // New creates a backend listening on path.
@@ -615,6 +623,8 @@ func (b *Backend) handle(conn net.Conn, lines []string, _ int, batch *int) (keep
 	defer b.mu.Unlock()
 	text := strings.Join(lines, "\n")
 	b.Log = append(b.Log, text)
+	b.Replies = append(b.Replies, Reply{})
+	replyIdx := len(b.Replies) - 1
 	mode := b.Mode
 	if b.FailAfter == 0 {
 		mode = b.FailMode
@@ -685,6 +695,9 @@ func (b *Backend) handle(conn net.Conn, lines []string, _ int, batch *int) (keep
 	}
 	if mode == "badjson" {
 		body = []byte("[[\"unterminated\", 1, \n")
+	} else if replyIdx < len(b.Replies) {
+		txt := string(body)
+		b.Replies[replyIdx] = Reply{Code: code, Body: &txt}
 	}
 	writeReply(conn, req.fixed16, code, body)
 
@@ -710,7 +723,8 @@ func (b *Backend) TakeLog() (log []string, commands []string) {
 	b.mu.Lock()
 	defer b.mu.Unlock()
 	log, commands = b.Log, b.Commands
-	b.Log, b.Commands = nil, nil
+	b.takenReplies = b.Replies
+	b.Log, b.Commands, b.Replies = nil, nil, nil
 	b.takenBatches = b.Batches
 	b.Batches = nil
 
@@ -726,4 +740,15 @@ func (b *Backend) TakenBatches() [][]string {
 	}
 
 	return b.takenBatches
+}
+
+// TakenReplies returns the replies removed by the last TakeLog (parallel to the returned log).
+func (b *Backend) TakenReplies() []Reply {
+	b.mu.Lock()
+	defer b.mu.Unlock()
+	if b.takenReplies == nil {
+		return []Reply{}
+	}
+
+	return b.takenReplies
 }
